@@ -1,20 +1,19 @@
 #!/bin/bash
-# usage: tryrefactors.sh <name>   -- applies each /tmp/refac/<name>/r*.diff to /repo in turn and runs EVERY quick check;
-# any VIOLATION here is a false alarm of the checker (the refactorings preserve behaviour).
+# usage: tryrefactors.sh <name>   -- applies each /tmp/refac/<name>/r*.diff VIRTUALLY (overlay, /repo untouched) and
+# runs EVERY quick check; any VIOLATION here is a false alarm of the checker (the refactorings preserve behaviour).
 set -u
 N="$1"
-cd /repo || exit 2
-[ -z "$(git status --porcelain --untracked-files=no)" ] || { echo "repo not clean"; exit 2; }
-mkdir -p /tmp/verif-mut; cp /verif/known_findings.txt /tmp/verif-mut/
+export GOFLAGS=-mod=mod GOPROXY=off GOSUMDB=off GOTOOLCHAIN=local GOWORK=off
+TMP=$(mktemp -d /tmp/verif-refac.XXXXXX); trap 'rm -rf "$TMP"' EXIT
 for d in /tmp/refac/$N/r*.diff; do
   [ -s "$d" ] || continue
-  if ! git apply --check "$d" 2>/dev/null; then echo "$(basename $d): does not apply"; continue; fi
-  git apply "$d"
+  b=$(basename $d .diff); ov="$TMP/ov-$b"; mkdir -p "$ov"
+  for f in $(grep '^+++ b/' "$d" | sed 's|^+++ b/||'); do mkdir -p "$ov/$(dirname "$f")"; cp "/repo/$f" "$ov/$f" 2>/dev/null; done
+  if ! patch -s -p1 -d "$ov" < "$d" >/dev/null 2>&1; then echo "$b: does not apply"; continue; fi
+  /verif/bin/verifcheck -list | xargs -P 6 -I{} sh -c "mkdir -p $TMP/vd-$b-{}; cp /verif/known_findings.txt $TMP/vd-$b-{}/; VERIF_DIR=$TMP/vd-$b-{} /verif/bin/verifcheck -p {} -tier quick -overlay-dir $ov > $TMP/out-$b-{}.txt 2>&1"
   bad=""
-  for p in $(/verif/bin/verifcheck -list); do
-    out=$(VERIF_DIR=/tmp/verif-mut /verif/bin/verifcheck -p $p -tier quick 2>&1)
-    if echo "$out" | grep -q '^VIOLATION'; then bad="$bad $p"; echo "FALSE-ALARM? $(basename $d) $p:"; echo "$out" | grep -E '^  (violation|UNDECIDED|ANCHOR)' | cut -c1-260 | head -4; fi
+  for o in $TMP/out-$b-*.txt; do
+    if grep -q '^VIOLATION' $o; then p=$(basename $o .txt); bad="$bad $p"; echo "FALSE-ALARM? $p:"; grep -E '^  (violation|UNDECIDED|ANCHOR)' $o | cut -c1-260 | head -4; fi
   done
-  [ -z "$bad" ] && echo "$(basename $d): silent on all checks"
-  git checkout -- .
+  [ -z "$bad" ] && echo "$b: silent on all $(ls $TMP/out-$b-*.txt | wc -l) checks"
 done
